@@ -121,6 +121,8 @@ type FuncTr struct {
 	rfLoops    []*LoopInfo
 	recvTy     types.Type
 	elemsEager map[string]bool
+	callOrd    map[ssa.Instruction]int // source-order rank of each call among same-named calls (`assert after f#n`)
+	curCallNth int
 }
 
 type deferred struct {
@@ -952,6 +954,7 @@ func (ft *FuncTr) block(b *ssa.BasicBlock) error {
 		}
 		for _, n := range lms.names() {
 			ft.h.noteHavoc(st.heap[n], ft.h.nextID(st))
+			ft.h.noteMapArr(st, n)
 		}
 		// locals typed as references: keep allocatedness
 		for _, a := range sortedAllocs(l.modLocals) {
